@@ -19,6 +19,7 @@ private:
     Goldilocks::Element *powTwoInv;
     Goldilocks::Element *r;
     Goldilocks::Element *r_;
+    u_int64_t rSize = 0; // size the cached r / r_ tables were computed for
     int extension;
 
     static u_int32_t log2(u_int64_t size)
@@ -153,8 +154,11 @@ public:
     inline void computeR(int N)
     {
         u_int64_t domainPow = log2(N);
+        delete[] r;
+        delete[] r_;
         r = new Goldilocks::Element[N];
         r_ = new Goldilocks::Element[N];
+        rSize = N;
         r[0] = Goldilocks::one();
         r_[0] = powTwoInv[domainPow];
         for (int i = 1; i < N; i++)
